@@ -784,7 +784,12 @@ func init() {
 				// harness asked for a fixed (arbitrary but legal) draw: n/2
 				return wrapTerm(t, tBV("bvlshr", n, tConst(w, 1)))
 			}
-			v := fr.i.path.fresh("rand", w)
+			// recorded as a draw so that the interpreter's concrete replay reproduces it
+			dv := fr.i.path.drawScalar("rand", w, t)
+			v := toTerm(dv)
+			if v.isConst() {
+				return dv
+			}
 			fr.i.path.assume(tCmp("bvult", v, n))
 			return wrapTerm(t, v)
 		}
@@ -797,13 +802,17 @@ func init() {
 		ext(p+"Int31n", randN(types.Typ[types.Int32]))
 		ext(p+"Int32N", randN(types.Typ[types.Int32]))
 		ext(p+"Uint64", func(fr *frame, a []value) value {
-			return wrapTerm(types.Typ[types.Uint64], fr.i.path.fresh("rand", 64))
+			return fr.i.path.drawScalar("rand", 64, types.Typ[types.Uint64])
 		})
 		ext(p+"Uint32", func(fr *frame, a []value) value {
-			return wrapTerm(types.Typ[types.Uint32], fr.i.path.fresh("rand", 32))
+			return fr.i.path.drawScalar("rand", 32, types.Typ[types.Uint32])
 		})
 		ext(p+"Int63", func(fr *frame, a []value) value {
-			v := fr.i.path.fresh("rand", 64)
+			dv := fr.i.path.drawScalar("rand", 64, types.Typ[types.Int64])
+			v := toTerm(dv)
+			if v.isConst() {
+				return dv
+			}
 			fr.i.path.assume(tCmp("bvsle", tConst(64, 0), v))
 			return wrapTerm(types.Typ[types.Int64], v)
 		})
